@@ -126,6 +126,17 @@ def g2(prog, ctx, gate):
         ctx.fail("G2", "parser only behind an accepting callback", pcall.where,
                  "a path reaches %s() without the callback having accepted the file (check missing, result ignored, "
                  "inverted, or made after parsing)" % common.PARSER, key="gate-callback", path=cfg.describe_path(wp))
+    # ... and so is every SUCCESS of the gate: a file reported as read takes part in the result (its entries, and its name, which
+    # masks namesakes in lower layers) - there is no way to "use" a file that bypasses the check
+    wp2 = cfg.success_path_avoiding(accepted)
+    if wp2 is None:
+        ctx.ok("G2", "the gate succeeds only behind an accepting callback", cb.where,
+               "every consistent path to a return of ECONF_SUCCESS carries `callback == NULL` or `%s` true" % cbtxt)
+    else:
+        last = wp2[-1][0] if wp2 else cfg.entry
+        ctx.fail("G2", "the gate succeeds only behind an accepting callback", (cfg.blocks[last].elems[-1] if cfg.blocks[last].elems else cb).where,
+                 "%s can return success for a file the callback was never asked about (a fast path in front of the check): the file counts as read - it is "
+                 "part of the history and masks same-named files of lower layers" % gate.name, key="gate-success-unchecked", path=cfg.describe_path(wp2)[-6:])
     # rejection -> constant ECONF_PARSING_CALLBACK_FAILED, nothing else
     rej_edges = [(b, i) for (b, i, s) in cfg.edges()
                  if cfg.edge_lit(b, i) is not None and cfg.edge_lit(b, i).kind == "truth"
@@ -230,8 +241,14 @@ def g3(prog, ctx, chain):
             for pname in (CB, CBD):
                 a = args[callee.param_names().index(pname)]
                 inst = "%s -> %s: %s" % (f.name, callee.name, pname)
+                root, _sel = query.lvalue_root(a)
                 if a.is_null_const():
                     ctx.ok("G3", inst, c.where, "variant without callback passes NULL")
+                elif root is not None and root.j.get("dk") in query.GLOBAL_KINDS:
+                    ctx.fail("G3", inst, c.where,
+                             "the check reaches the gate through the static object `%s` (%s), not through the chain of parameters: a read started from inside the "
+                             "callback (or by another thread) overwrites it, and the files that follow are parsed under that other read's callback - or none" % (
+                                 root.j["name"], render(a)), key="forward-static:%s:%s:%s" % (f.name, callee.name, pname))
                 else:
                     ctx.inconclusive("G3", inst, c.where, "non-callback caller passes %s" % render(a))
     for wname in NONCB_WRAPPERS:
